@@ -637,6 +637,9 @@ func (env *specEnv) evalCall(x *ECall) SVal {
 		}
 		// a value type stored in an interface is boxed (instr.go makeInterface): unbox it
 		srt := c.sortOf(t)
+		if v.T.Sort != SInt || srt == SInt {
+			return SVal{T: v.T, GoT: t} // already a value of that sort (e.g. a ghost field holding a slice)
+		}
 		unbox := quote("unbox " + typeKey(t))
 		box := quote("box " + typeKey(t))
 		c.decl("box "+box, fmt.Sprintf("(declare-fun %s (%s) Int)", box, srt))
